@@ -20,6 +20,7 @@ type c04Monitor struct {
 	asked    map[expr.Key]bool
 	askedMem map[uint64]bool
 	init     bool
+	askedNow bool // the step just executed asked the provider for memory
 }
 
 func (mo *c04Monitor) check(m *emu.Machine) *eng.Fail {
@@ -39,7 +40,11 @@ func (mo *c04Monitor) check(m *emu.Machine) *eng.Fail {
 			}
 		}
 	}
+	mo.askedNow = false
 	for _, rq := range m.Prov.Reqs[mo.seenReq:] {
+		if rq.Mem {
+			mo.askedNow = true
+		}
 		if !rq.Mem {
 			if mo.asked[rq.Reg] {
 				return &eng.Fail{Sig: "register asked twice", What: fmt.Sprintf("step %d: provider asked again for register %s", rq.Step, rq.Reg)}
@@ -104,6 +109,12 @@ func c04Filter(f *eng.Fail, mo *c04Monitor) *eng.Fail {
 		if mo.asked[d.ReadReg] {
 			return &eng.Fail{Sig: "supplied register value not observed", What: "a later read does not observe the register value the provider supplied: " + f.What, Case: f.Case}
 		}
+	case "report memload-extra", "report memload-missing", "register", "memory":
+		// a step that asked the provider and then reports / computes something else than the
+		// combination of what was known and what was supplied
+		if mo.askedNow {
+			return &eng.Fail{Sig: "read combining known and supplied state is wrong", What: "the step that asked the provider does not observe known and supplied bytes together: " + f.What, Case: f.Case}
+		}
 	}
 	return nil
 }
@@ -111,7 +122,7 @@ func c04Filter(f *eng.Fail, mo *c04Monitor) *eng.Fail {
 func init() {
 	checks["C04"] = eng.Check{
 		Hist:        true,
-		Rule:        "the C03 program space (every program of <=3, thorough 4, instructions over the 36-word alphabet x 4 initial states incl. pre-loaded registers and memory) x <=8 steps with an instrumented state provider; a monitor checks every request: a register only if never preset, written or supplied, at most once; a memory range only if none of its bytes is in the image, preset, written or supplied and no byte twice; a read whose reported value differs from the reference machine (memory = image + provider bytes + program writes) and which covers a supplied byte / register is reported as 'supplied value not observed'. Non-trivial = run with at least one provider request.",
+		Rule:        "the C03 program space (every program of <=3, thorough 4, instructions over the 36-word alphabet x 4 initial states incl. pre-loaded registers and memory) x <=8 steps with an instrumented state provider; a monitor checks every request: a register only if never preset, written or supplied, at most once; a memory range only if none of its bytes is in the image, preset, written or supplied and no byte twice; a read whose reported value differs from the reference machine (memory = image + provider bytes + program writes) and which covers a supplied byte / register is reported as 'supplied value not observed'; a step that asked the provider for memory and then reports or computes something else than known and supplied bytes together is reported too. Non-trivial = run with at least one provider request.",
 		Assumptions: []string{"runs stop at the first state mismatch (reported by C03), so requests after a mismatch are not judged"},
 		Run: func(r *eng.Run) {
 			c03Enumerate(r, func(c c03Case) {
